@@ -36,6 +36,7 @@ type trace struct {
 }
 
 type verdict struct {
+	step              int // op the failure shows at (-1: unknown)
 	kind, class, what string
 	impl, model       interface{}
 }
@@ -144,7 +145,7 @@ func check(c *rig.Ctx, cs Case) (*verdict, trace) {
 	}
 	if len(jr.Violations) > 0 {
 		x := jr.Violations[0]
-		return &verdict{kind: "judge", class: x.Class, what: fmt.Sprintf("%s at op %d %s", x.Class, x.Step, describe(cs.Ops[x.Step])),
+		return &verdict{step: x.Step, kind: "judge", class: x.Class, what: fmt.Sprintf("%s at op %d %s", x.Class, x.Step, describe(cs.Ops[x.Step])),
 			impl: map[string]interface{}{"before": states[x.Step], "after": states[x.Step+1]}}, tr
 	}
 	// API-backed store: what the passes reclaimed from the cache must be gone from the API too, and the API never
@@ -370,9 +371,20 @@ func (f features) bucket(n int) string {
 	return "ops>100"
 }
 
+// racy: the failure needs two goroutines of a burst to interleave; a candidate is tried several times.
+func racy(class string) bool { return class == "c18.count-differs-from-recorded-states" }
+
 func fails(c *rig.Ctx, cs Case, class string) bool {
-	v, _ := check(c, cs)
-	return v != nil && v.class == class
+	tries := 1
+	if racy(class) {
+		tries = 8
+	}
+	for t := 0; t < tries; t++ {
+		if v, _ := check(c, cs); v != nil && v.class == class {
+			return true
+		}
+	}
+	return false
 }
 
 func shrink(c *rig.Ctx, cs Case, class string) Case {
@@ -427,12 +439,23 @@ func runOne(c *rig.Ctx, cs Case, origin string) {
 		c.Trace()
 		return
 	}
-	small := shrink(c, cs, v.class)
-	if v2, _ := check(c, small); v2 != nil && v2.class == v.class {
-		record(c, small, v2)
-	} else {
-		record(c, cs, v)
+	if v.kind == "judge" && v.step > 0 && v.step+1 < len(cs.Ops) {
+		// nothing after the op the judge fired at matters
+		if cut := (Case{Shards: cs.Shards, Store: cs.Store, Ops: cs.Ops[:v.step+1]}); fails(c, cut, v.class) {
+			cs = cut
+		}
 	}
+	small := shrink(c, cs, v.class)
+	for t := 0; t < 8; t++ {
+		if v2, _ := check(c, small); v2 != nil && v2.class == v.class {
+			record(c, small, v2)
+			return
+		}
+		if !racy(v.class) {
+			break
+		}
+	}
+	record(c, cs, v)
 }
 
 func main() {
